@@ -302,7 +302,8 @@ fn parse_at_rule(
                             ss.append_token(st, input, Some(peek.token.clone()));
                             match xs {
                                 "layer" => {
-                                    convert_class_names_and_rpx_in_block(input, ss);
+                                    // a layer name is not a selector (`a.b` is the sub-layer b of a)
+                                    convert_rpx_in_block(input, ss, None);
                                 }
                                 "supports" => {
                                     let st =
@@ -427,6 +428,15 @@ fn parse_at_rule(
                                 ss.append_nested_block_close(close, input);
                             });
                             return Ok(false);
+                        }
+                        Token::Function(f)
+                            if x.eq_ignore_ascii_case("import")
+                                && f.eq_ignore_ascii_case("layer") =>
+                        {
+                            // a layer name is not a selector (`a.b` is the sub-layer b of a)
+                            let close = ss.append_nested_block(next, input);
+                            convert_rpx_in_block(input, ss, None);
+                            ss.append_nested_block_close(close, input);
                         }
                         Token::SquareBracketBlock
                         | Token::ParenthesisBlock
